@@ -47,6 +47,7 @@ def check(ctx, replay=None):
         pm.replay_case(ctx, res, replay)
     else:
         cfgs = pm.grid_rep(ctx.rng, ctx.tier)
+        cfgs = cfgs + [c.release_copy() for c in cfgs]      # every option set as a debug build and as a release build (NDEBUG)
         pm.run_cases(ctx, res, cfgs, scripts_for_factory(ctx, 50 if ctx.tier == "quick" else 300, 12), per_case=True)
         res.extra["instantiations"] = [c.tag for c in cfgs]
     res.rule = ("one case = (Matrix option set with representative cycles, filtered cell complex, history of insertions / removals "
